@@ -173,7 +173,8 @@ class LocalizationStorage:
         texts = self._flat_list()
         result = set()
         for text in texts:
-            result.add(str(text.Lang))
+            if text.Lang is not None:  # a text without language has no language to list
+                result.add(str(text.Lang))
         return list(result)
 
     def _flat_list(self, ref_list=None):
